@@ -28,7 +28,9 @@ CONTAINER_CALLS = ("std::cell::Cell::new",
                    # wrappers a tracked value passes through unchanged (a helper returning Result<fd, E> / Option<fd>, `?` at the call site)
                    "std::ops::Try::branch", "std::result::Result::unwrap", "std::result::Result::expect", "std::option::Option::unwrap", "std::option::Option::expect",
                    "std::result::Result::map_err", "std::result::Result::ok", "std::option::Option::ok_or", "std::option::Option::ok_or_else",
-                   "std::result::Result::unwrap_or", "std::option::Option::unwrap_or")
+                   "std::result::Result::unwrap_or", "std::option::Option::unwrap_or",
+                   # pointer re-typing
+                   "std::ptr::mut_ptr::cast", "std::ptr::const_ptr::cast", "std::ptr::mut_ptr::cast_const", "std::ptr::const_ptr::cast_mut")
 
 # ---- resource domain: the same typestate machinery decides descriptors (default) and heap/mapping pointers
 _FD_DOMAIN = dict(FOREIGN_SOURCES=FOREIGN_SOURCES, FOREIGN_OUT_SOURCES=FOREIGN_OUT_SOURCES, FOREIGN_SINKS=FOREIGN_SINKS,
@@ -573,7 +575,10 @@ def rule_fd_path(ctx, cfg, F, model, rule_name="FD-PATH", rule_text=None):
         # descriptors received in control messages
         for (b, si, st) in cmsg_loads(F, f):
             n_sources += 1
-            r = eng.run(f, b, {st["lhs"]["l"]}, source_site=(b,), start_stmt=si + 1)
+            if si is None:
+                r = eng.run(f, f.term(b)["to"], {st["lhs"]["l"]}, source_site=(b,))
+            else:
+                r = eng.run(f, b, {st["lhs"]["l"]}, source_site=(b,), start_stmt=si + 1)
             _report_path(R, cfg, f, b, "descriptor read from CMSG_DATA", r, "")
     R.count("sources[%s]" % cfg, n_sources)
     # parameters consumed on some paths only
@@ -746,6 +751,12 @@ def cmsg_loads(F, f):
             roots = tr.roots(pl["l"])
             if any(r.kind == "call" and r.id.endswith("CMSG_DATA") for r in roots):
                 out.append((b, si, st))
+        # `p.read()` / `ptr::read(p)` with p derived from CMSG_DATA: the same load written as a call
+        t = f.term(b)
+        if t["t"] == "call" and strip_generics(callee_name(t)) in ("std::ptr::const_ptr::read", "std::ptr::mut_ptr::read", "std::ptr::read", "std::ptr::read_unaligned",
+                                                                  "std::ptr::const_ptr::read_unaligned") and t["args"] and not t["dest"].get("p") \
+                and f.local_ty(t["dest"]["l"]) in INT_TYPES and any(r.kind == "call" and r.id.endswith("CMSG_DATA") for r in tr.roots_of_operand(t["args"][0])):
+            out.append((b, None, {"s": "assign", "lhs": {"l": t["dest"]["l"]}, "rv": {"r": "call-load"}, "call_load": True}))
     return out
 
 
@@ -947,6 +958,9 @@ def _classify_released(F, f, tr, operand, model, site_block):
             elif r.block in mv_here:
                 borrowed_desc.append("a borrowing read of %s.%s (%s)" % (mv_here[r.block]["field"] + (mv_here[r.block]["how"],)))
             elif r.id.endswith("CMSG_DATA"):
+                owned_desc.append("control-message data")
+            elif strip_generics(r.id) in ("std::ptr::const_ptr::read", "std::ptr::mut_ptr::read", "std::ptr::read", "std::ptr::read_unaligned") and r.block is not None and \
+                    any(x.kind == "call" and x.id.endswith("CMSG_DATA") for x in tr.roots_of_operand(f.term(r.block)["args"][0])):
                 owned_desc.append("control-message data")
             elif strip_generics(r.id) in ("std::vec::Vec::pop", "std::iter::Iterator::next", "std::vec::Vec::remove", "std::vec::Vec::swap_remove", "std::ops::Index::index") and r.block is not None \
                     and _from_cmsg_list(f, tr, r.block):
